@@ -42,7 +42,7 @@ inductive TEv where
   | kill (t http : Nat)
   | drop | killcore | term | exited | teardown
   | destroy (e : Nat)
-  | destroyed (e : Nat)
+  | destroyed (e : Nat) (ok : Bool)
   | envs (rows : List Nat)
   | own (phase : String) (rows : List (Nat × Bool))
   | quiet (l : Nat) (rows : List (Nat × Nat × MState))
@@ -78,7 +78,7 @@ def parseEv : SExp → Option TEv
   | .list [.atom "exited"] => some .exited
   | .list [.atom "teardown"] => some .teardown
   | .list [.atom "destroy", e] => do pure (.destroy (← envRef e))
-  | .list [.atom "destroyed", e, _] => do pure (.destroyed (← envRef e))
+  | .list [.atom "destroyed", e, ok] => do pure (.destroyed (← envRef e) (← ok.bool?))
   | .list (.atom "envs" :: rows) => do
     pure (.envs (← rows.mapM? fun | .list [e, _] => envRef e | _ => none))
   | .list (.atom "own" :: .atom phase :: rows) => do
@@ -100,6 +100,7 @@ structure Mon where
   seen : List String := []        -- calls of the real core since then
   expAns : List Upd := []         -- reconciliation answers the model's master gave, not yet seen in the trace
   terminating : Bool := false
+  refused : List Nat := []        -- environments whose DestroyEnvironment request the core refused
   err : Option String := none
 
 def Mon.fail (m : Mon) (why : String) : Mon := if m.err.isSome then m else { m with err := some why }
@@ -145,8 +146,10 @@ def subMultiset : List String → List String → Bool
 /-- strict: the real core made exactly the calls the model's core made; else a prefix-closed subset (the core was killed) -/
 def Mon.sync (m : Mon) (strict : Bool) (wher : String) : Mon :=
   let m := m.settle
-  let p := sortS (predicted m)
-  let o := sortS m.seen
+  -- a second KILL for a task that was KILLed already changes nothing at the master, and whether the core's own
+  -- clean-up of a failed environment still finds a task ACTIVE is a race inside the core: compare as sets
+  let p := sortS (predicted m).eraseDups
+  let o := sortS m.seen.eraseDups
   let ok := if strict then p == o else subMultiset o p
   let m := if ok then m else m.fail s!"{wher}: the core made the calls {o}, the model's core {p}"
   let m := if strict && !m.expAns.isEmpty then m.fail s!"{wher}: the model's master answered the reconciliation with {m.expAns.map (·.1)} more" else m
@@ -200,16 +203,22 @@ def Mon.onEv (m : Mon) (kv0 : Option Nat) : TEv → Mon
     let m := m.settle.step .coreTerm
     { m with mark := m.s.log.length, seen := [], expAns := [], terminating := false }
   | .teardown => m.fail "TEARDOWN call"
-  | .destroy e => if m.terminating then m else m.settle.step (.release e)
-  | .destroyed _ => m
+  | .destroy e => if m.terminating || m.refused.contains e then m else m.settle.step (.release e)
+  | .destroyed _ _ => m
   | .envs rows =>
     if m.terminating || !m.s.alive then m else
     -- environments the core has given up by itself (failed deployment): their tasks are released
     let gone := (m.s.roster.map (·.env)).eraseDups.filter (fun e => !rows.contains e)
     gone.foldl (fun m e => m.settle.step (.release e)) m
   | .own phase rows =>
-    if phase == "post" then m else
+    if phase == "post" || m.terminating then m else
     let m := m.settle
+    -- an environment none of whose tasks GetTasks still lists has been released by the core itself
+    -- (failed deployment, its clean-up possibly still in progress: the environment may still be listed)
+    let ids := rows.map (·.1)
+    let gone := (m.s.roster.map (·.env)).eraseDups.filter fun e =>
+      (m.s.roster.filter (·.env == e)).all fun r => !ids.contains r.id
+    let m := gone.foldl (fun m e => m.step (.release e)) m
     let o := sortS (rows.map fun (t, l) => s!"{t}:{l}")
     if o == rosterRows m.s then m else m.fail s!"GetTasks ({phase}) says {o}, the model's roster is {rosterRows m.s}"
   | .quiet l rows =>
@@ -231,6 +240,11 @@ where
 /-! ## the log of the real core, from the observation alone -/
 
 structure Obs where
+  /-- (position, environments listed) of every `(envs …)` marker of the trace: lets a KILL be attributed to a
+      clean-up the core started by itself (the environment is gone at the next snapshot) -/
+  snaps : List (Nat × List Nat) := []
+  pos : Nat := 0
+  dead : List Nat := []             -- tasks whose last reported state is terminal
   log : List Out := []              -- newest first
   life : Nat := 0
   lastKv : Option Nat := none
@@ -240,7 +254,9 @@ structure Obs where
   lastReason : List (Nat × Reason) := []
   envOf : List (Nat × Nat) := []
 
-def Obs.onEv (o : Obs) : TEv → Obs
+def Obs.onEv (o : Obs) (ev : TEv) : Obs :=
+  let o := { o with pos := o.pos + 1 }
+  match ev with
   | .kv f =>
     match f with
     | some g => if o.lastKv == some g then o else { o with log := .persist o.life g :: o.log, lastKv := some g }
@@ -249,7 +265,9 @@ def Obs.onEv (o : Obs) : TEv → Obs
   | .sub l f _ => { o with log := .subscribe l f :: o.log }
   | .recon 0 _ => { o with log := .reconcile o.life :: o.log }
   | .launch e t => { o with envOf := (t, e) :: o.envOf }
-  | .upd t _ r d => if d then { o with lastReason := Assoc.set o.lastReason t r } else o
+  | .upd t st r d =>
+    let o := if st.terminal && r != .recon then { o with dead := t :: o.dead } else o
+    if d then { o with lastReason := Assoc.set o.lastReason t r } else o
   | .own _ rows => { o with own := rows }
   | .destroy e => { o with destroying := e :: o.destroying }
   | .envs rows =>
@@ -259,7 +277,10 @@ def Obs.onEv (o : Obs) : TEv → Obs
   | .term => { o with terminating := true }
   | .kill t _ =>
     let env := Assoc.get o.envOf t
-    let released := match env with | some e => o.destroying.contains e | none => false
+    let goneNext := match env, o.snaps.find? (fun sn => sn.1 > o.pos) with
+      | some e, some sn => !sn.2.contains e
+      | _, _ => false
+    let released := o.dead.contains t || goneNext || (match env with | some e => o.destroying.contains e | none => false)
     let why : Why := if o.terminating then .term else
       match Assoc.get o.lastReason t with
       | some .recon => .update .recon
@@ -282,9 +303,11 @@ def processLine (line : String) : String :=
       match evs.mapM? parseEv with
       | none => "REJECT:unparsable-observation\t0\t-"
       | some tr =>
-        let m := tr.foldl (fun m e => m.onEv kv0 e) ({ s := init kv0 } : Mon)
+        let refused := tr.filterMap fun | .destroyed e false => some e | _ => none
+        let m := tr.foldl (fun m e => m.onEv kv0 e) ({ s := init kv0, refused := refused } : Mon)
         let m := m.sync true "end of the trace"
-        let o := tr.foldl Obs.onEv {}
+        let snaps := (tr.zipIdx.filterMap fun (e, i) => match e with | .envs rows => some (i + 1, rows) | _ => none)
+        let o := tr.foldl Obs.onEv { snaps := snaps }
         let spec := Spec.C18.all o.log
         let model := match m.err with | none => "ACCEPT" | some w => "REJECT:" ++ (w.replace "\t" " ").replace "\n" " "
         let onlyOwned := sameIdentity o.log && persistedOnce o.log && orphansKilled o.log && updatesNeverKill o.log && !ownedSpared o.log
